@@ -27,7 +27,7 @@ func main() {
 	}
 	// the live heap (SSA program, hash-consed terms) is large and stable; the interpreter allocates fast
 	debug.SetGCPercent(1000)
-	debug.SetMemoryLimit(24 << 30)
+	debug.SetMemoryLimit(10 << 30)
 	if pf := os.Getenv("CPUPROF"); pf != "" {
 		f, _ := os.Create(pf)
 		pprof.StartCPUProfile(f)
